@@ -143,6 +143,17 @@ func (m *Machine) civilAdd(t TimeV, d *Term) Value {
 		z.ns = m.tt.BV(0, 32)
 		return mk(m.civAddSecond(&z))
 	}
+	// (60 - t.Minute()) * time.Minute: start of the next hour on the wall clock (seconds and nanoseconds kept)
+	if d.op == OpMul && len(d.args) == 2 {
+		for i := 0; i < 2; i++ {
+			k, e := d.args[i], d.args[1-i]
+			if k.IsConst() && k.val == 60_000_000_000 && e.op == OpSub && e.args[0].IsConst() && e.args[0].val == 60 && e.args[1] == m.tt.ZExt(c.mi, 64) {
+				z := *c
+				z.mi = m.cf(0)
+				return mk(m.civAddHour(&z))
+			}
+		}
+	}
 	panic(unsupported("civil Add of a symbolic duration " + d.String()))
 }
 
